@@ -17,6 +17,11 @@ CONSTANTS
   DevSleepLimiter = FALSE
   DevWriteLock = FALSE
   DevRouteFirst = FALSE
+  DevCleanupFirst = FALSE
+  DevLegRegistered = FALSE
+  DevBufio = FALSE
+  AttachKinds = @@AK@@
+  HoldOn = @@HOLD@@
   Gen = FALSE
   Emit = FALSE
 SPECIFICATION LiveSpec
